@@ -1,5 +1,5 @@
 (** C20 - generation cost stays polynomial: the two recursive traversals are linear. *)
-From W2W Require Import Wf C20Spec C20Proof.
+From W2W Require Import Wf C20Spec C20Proof OutSize.
 
 (** every entry point walks its own body and each helper function's body at most once *)
 Theorem C20_stage_walks : forall m, wf_calls m = true ->
@@ -17,6 +17,17 @@ Theorem C20_holds_bool : forall m, wf m = true ->
   C20_ok m (N.of_nat (stage_walks m)) (N.of_nat (type_visits m)) = true.
 Proof. exact C20_ok_model. Qed.
 Print Assumptions C20_holds_bool.
+
+(** The non-recursive rest of the generator: the number of items in the sections of the output made from the arenas
+    directly (structs with their fields and offset assertions, constants, entry point constants, compute / vertex /
+    fragment helpers, push constant range) is at most the size of the module ([module_size]: structs counted with
+    twice their members, constants, four times the entry points) - linear, whatever options are selected. The bind
+    group sections have one field / entry per bound variable (C04 / C11). Together with the two traversal bounds above
+    no part of the generator's work depends on call depth, sharing or nesting. *)
+Theorem C20_output_items_linear : forall m src inc o out_,
+  gen m src inc o = Ok out_ -> out_items out_ <= module_size m.
+Proof. exact out_items_linear. Qed.
+Print Assumptions C20_output_items_linear.
 
 (** Non-vacuity and tightness: a chain of 12 value-returning helpers is walked 13 times
     (the un-memoised traversal walked it 2^13 times). *)
